@@ -63,7 +63,7 @@ class C16(Check):
     ASSUMPTIONS = ['zlib / zstandard C libraries are trusted as codecs; the property is about rxsci\'s streaming wrappers',
                    'reference decoders: gzip.decompress and zstandard.ZstdDecompressor.stream_reader']
     ANCHORS = ['rxsci/compression/z.py', 'rxsci/compression/zstd.py']
-    REQUIRED_TAGS = ['gzip', 'zstd', 'empty-list', 'empty-chunk-in-input', 'over-one-buffer', 'rand', 'zeros', 'multi-MiB-compressible']
+    REQUIRED_TAGS = ['gzip', 'zstd', 'empty-list', 'empty-chunk-in-input', 'over-one-buffer', 'rand', 'zeros', 'multi-MiB-compressible', 'over-4MiB']
     REQUIRED_OBSERVED = ['truncations_checked', 'rechunkings_checked', 'reference_decodes']
 
     _ops = {}
@@ -95,7 +95,12 @@ class C16(Check):
             kind = rng.choice(['rand', 'zeros', 'text', 'mixed'])
             if k < 8:
                 kind = ('rand', 'zeros')[(k // 2) % 2]
-            if k % 12 == 11:
+            if k % 60 == 30:
+                # well beyond 4 MiB of input, incompressible and compressible, a few large chunks
+                sizes = [rng.choice([1 << 21, (1 << 21) + 5, 3 << 20]) for _ in range(rng.randint(2, 4))]
+                kind = ('rand', 'text', 'zeros')[(k // 60) % 3]
+                codec = ('gzip', 'zstd')[(k // 180) % 2]
+            elif k % 12 == 11:
                 # several MiB of highly compressible data: one compressed chunk expands to far more than any
                 # internal buffer (decompressors that bound their output per call must still drain everything)
                 sizes = [rng.choice([1 << 20, (1 << 20) + 13, 3 << 19]) for _ in range(rng.randint(2, 4))]
@@ -146,6 +151,8 @@ class C16(Check):
             out.tags.append('empty-chunk-in-input')
         if len(data) > 131072:
             out.tags.append('over-one-buffer')
+        if len(data) > (4 << 20):
+            out.tags.append('over-4MiB')
         if len(data) > (2 << 20) and case['data']['kind'] in ('zeros', 'text'):
             out.tags.append('multi-MiB-compressible')
 
